@@ -25,8 +25,11 @@ class FakeClient:
     """client_class seam: records which server object receives which call"""
     log = []
     down = set()
+    unbuildable = set()
 
     def __init__(self, server, **kw):
+        if server in FakeClient.unbuildable:
+            raise ConnectionRefusedError(111, "cannot build a client for this server")      # e.g. a client class that connects eagerly
         self.server = server
 
     def __getattr__(self, name):
@@ -190,19 +193,34 @@ def main(argv):
     pool_servers = [("10.0.0.%d" % i, 11211) for i in range(1, 7)]
     small = ["key%d" % i for i in range(120 if ctx.thorough else 60)]
     try:
-        for rep in range(40 if ctx.thorough else 12):
+        scripted = [(1, ["fail", "recover", "add", "fail"], True), (1, ["fail", "add", "recover"], False), (2, ["fail", "fail", "recover", "recover"], True),
+                    (1, ["add-fails", "fail", "add-fails", "recover"], False), (2, ["add-fails", "add", "fail"], True), (3, ["fail", "add-fails", "recover", "fail", "fail"], False)]
+        for rep in range((40 if ctx.thorough else 12) + len(scripted)):
             ft = FakeTime()
             hash_mod.time = ft
             FakeClient.down = set()
-            start = rng.sample(pool_servers, rng.randrange(1, 4))
-            hc = type('HC', (HashClient,), {'client_class': FakeClient})(list(start), retry_attempts=0, dead_timeout=60, ignore_exc=True)
+            plan = scripted[rep] if rep < len(scripted) else None
+            start = rng.sample(pool_servers, plan[0] if plan else rng.randrange(1, 4))
+            hc = type('HC', (HashClient,), {'client_class': FakeClient})(list(start), retry_attempts=0, dead_timeout=60, ignore_exc=(plan[2] if plan else True))
             rotation = list(start)
             hist = [("ctor", start)]
 
             def probe(what):
                 FakeClient.log = []
                 for k in small:
-                    hc.get(k)
+                    try:
+                        hc.get(k)
+                    except Exception as e:
+                        if rotation or type(e).__name__ != "MemcacheError":
+                            ctx.violation("a lookup raised an unexpected error", {"history": [list(map(str, h)) for h in hist], "after": what, "rotation": ["%s:%s" % s_ for s_ in rotation],
+                                                                                  "key": k, "error": repr(e)[:100]}, tags=["hashclient-rotation"])
+                            return False
+                if not rotation:
+                    if FakeClient.log:
+                        ctx.violation("no server is in rotation, yet a server was contacted",
+                                      {"history": [list(map(str, h)) for h in hist], "after": what, "contacted": sorted({"%s:%s" % e_[0] for e_ in FakeClient.log})}, tags=["hashclient-rotation"])
+                        return False
+                    return True
                 nodes = ["%s:%s" % s_ for s_ in rotation]
                 for k, (srv, _, a) in zip(small, FakeClient.log):
                     ctx.count("hashclient-rotation-probes")
@@ -214,21 +232,33 @@ def main(argv):
                         return False
                 return True
             ok = probe("construction")
-            for step in range(rng.randrange(2, 7)):
+            for step in range(len(plan[1]) if plan else rng.randrange(2, 7)):
                 if not ok:
                     break
-                ev = rng.choice(["add", "fail", "recover"])
+                ev = plan[1][step] if plan else rng.choice(["add", "fail", "recover", "add-fails", "fail"])
                 outside = [s_ for s_ in pool_servers if s_ not in rotation and s_ not in FakeClient.down]
                 if ev == "add" and outside:
                     x = rng.choice(outside)
                     hc.add_server(x)
                     rotation.append(x)
                     hist.append(("add_server", x))
-                elif ev == "fail" and len(rotation) > 1:
+                elif ev == "add-fails" and outside:
+                    x = rng.choice(outside)
+                    FakeClient.unbuildable = {x}
+                    try:
+                        hc.add_server(x)
+                        hist.append(("add_server did not raise although the client could not be built", x))
+                    except Exception:
+                        hist.append(("add_server failed", x))
+                    FakeClient.unbuildable = set()
+                elif ev == "fail" and rotation:
                     x = rng.choice(rotation)
                     FakeClient.down.add(x)
                     for k in small:            # the first call that reaches it takes it out of rotation
-                        hc.get(k)
+                        try:
+                            hc.get(k)
+                        except Exception:
+                            pass
                     rotation.remove(x)
                     hist.append(("failed", x))
                 elif ev == "recover" and FakeClient.down:
@@ -249,6 +279,7 @@ def main(argv):
     finally:
         hash_mod.time = real_time
         FakeClient.down = set()
+        FakeClient.unbuildable = set()
     # node-name model (normalize_server_spec + _make_client_key) against the real code
     nlines, nwant = [], []
     specs = ["h:12", "h", "localhost:11211", "[::1]:11211", "[::1]", "unix:/a/b", "/a/b", "a.b-c:1", "x:0", "h:0012", ("h", 12), ("h.x", 11211)]
